@@ -220,6 +220,8 @@ def alias_battery(seed):
 
 def run(chk):
     prog, base = setup(chk)
+    from .common import api_surface, ELEMENT_API
+    api_surface(chk, prog, 'Element', ELEMENT_API, 'an aliasing harness')
     maxn = 3 if chk.tier == "thorough" else 2
     chk.bounds = ["input byte slices are modelled as carved out of a larger caller buffer (spare capacity behind them); any write to that buffer is reported",
                   "every exported method of Element, Scalar, Point x every partition of {receiver, pointer arguments}; slices: receiver aliased to points[0], points[0] = points[1]; all argument values symbolic",
